@@ -24,4 +24,4 @@ def run(tier: str, seed: int):
         rule = ('all DAG shapes n<=5 (batch<=2) and n<=4 (batch<=3, bust_cache) x requested subsets x pre-cached '
                 'subsets; n<=3 variants batch<=3; n<=2 full cross product of placement x dup x types x requests x pre-cache')
         e3c = list(F.fam_e3(F.fam_shapes(1, 3), workers=(1, 2, None))) + list(F.fam_e3(F.fam_shapes(4, 4, pre=False), workers=(2, 3), cpu_count=3, liveness=False))
-    return run_e2_property('C01', tier, seed, cfgs, serial_configs=serial, e3_configs=e3c, real_cases=list(F.fam_real(F.real_bases('plain'), workers=(1, 2))), rule=rule, assumptions=ASSUME)
+    return run_e2_property('C01', tier, seed, cfgs, serial_configs=serial, e3_configs=e3c, hash_slices=([('shapes3', 1), ('shapes3', 2)] if tier == 'quick' else [('shapes3', 1), ('shapes3', 2), ('shapes3', 3), ('shapes4', 1), ('shapes4', 2)]), real_cases=list(F.fam_real(F.real_bases('plain'), workers=(1, 2))), rule=rule, assumptions=ASSUME)
